@@ -35,6 +35,8 @@ pub struct Cfg14 {
 pub enum Step {
     Rpc(usize, Rpc),
     Restart,
+    /// the RPC runs with storage faults armed on the data directory (persistent configurations)
+    Faulty(usize, Rpc, Vec<crate::c03::RuleSpec>),
 }
 
 #[derive(Clone, Debug, PartialEq, Serialize, Deserialize)]
@@ -142,7 +144,13 @@ pub fn gen_plan(seed: u64, run: u64, tier: &str) -> Plan {
             continue;
         }
         let tenant = if rng.chance(1, 6) { 1 } else { 0 };
-        steps.push(Step::Rpc(tenant, gen_rpc(&mut rng, &cfg, &mut w, max_id)));
+        let r = gen_rpc(&mut rng, &cfg, &mut w, max_id);
+        if cfg.persist && r.is_write() && rng.chance(1, 5) {
+            let faults = crate::c03::gen_faults(&mut rng);
+            steps.push(Step::Faulty(tenant, r, faults));
+        } else {
+            steps.push(Step::Rpc(tenant, r));
+        }
     }
     let mut threads = Vec::new();
     if concurrent {
@@ -219,6 +227,7 @@ pub struct Exec {
     pub aborted: bool,
     pub probes: BTreeMap<String, u64>,
     pub per_rpc: BTreeMap<String, u64>,
+    pub faults: BTreeMap<String, u64>,
     pub trace_hash: u64,
     pub choices: Vec<(u64, u32)>,
     pub digest: u64,
@@ -261,14 +270,16 @@ pub fn execute(plan: &Plan) -> Exec {
     reset_env(plan.env_seed);
     let p = plan.clone();
     let r = on_fresh_thread(move || {
-        let mut ex = Exec { problems: vec![], steps: 0, aborted: false, probes: BTreeMap::new(), per_rpc: BTreeMap::new(), trace_hash: 0, choices: vec![], digest: 0 };
+        let mut ex = Exec { problems: vec![], steps: 0, aborted: false, probes: BTreeMap::new(), per_rpc: BTreeMap::new(), faults: BTreeMap::new(), trace_hash: 0, choices: vec![], digest: 0 };
         let dir = fresh_dir("c14", 0);
         let data = format!("{}/data", dir);
         let aux = format!("{}/aux", dir);
         let _ = std::fs::create_dir_all(&data);
         let _ = std::fs::create_dir_all(&aux);
+        let root = if p.cfg.persist { Some(simlibc::register_root(&data, None, false)) } else { None };
         let (scfg, keys) = server_cfg(&p.cfg, if p.cfg.persist { Some(data) } else { None }, aux);
         let rt = rpc::paused_runtime();
+        let mut faulted = false;
         let mut h = match Harness::start(&scfg) {
             Ok(h) => Arc::new(h),
             Err(e) => {
@@ -286,7 +297,15 @@ pub fn execute(plan: &Plan) -> Exec {
                     h = match Harness::start(&scfg) {
                         Ok(n) => Arc::new(n),
                         Err(e) => {
-                            ex.problems.push(Problem { clause: "restart_failed".into(), msg: format!("server did not restart: {}", e), facts: BTreeMap::new(), step: i });
+                            if faulted {
+                                // what recovery does after storage faults is C01/C03's subject, not a quota verdict
+                                *ex.probes.entry("restart_refused_after_storage_fault".into()).or_insert(0) += 1;
+                            } else {
+                                ex.problems.push(Problem { clause: "restart_failed".into(), msg: format!("server did not restart: {}", e), facts: BTreeMap::new(), step: i });
+                            }
+                            if let Some(r) = root {
+                                simlibc::unregister_root(r);
+                            }
                             remove_dir(&dir);
                             return ex;
                         }
@@ -296,6 +315,27 @@ pub fn execute(plan: &Plan) -> Exec {
                         *ex.probes.entry("restart_recount_with_live_documents".into()).or_insert(0) += 1;
                     }
                     if let Some(pb) = check_exact(&h, &p.cfg, i, "restart", "Restart", false) {
+                        ex.problems.push(pb);
+                        break 'steps;
+                    }
+                }
+                Step::Faulty(t, r, faults) => {
+                    faulted = true;
+                    simlibc::arm_faults(faults.iter().map(crate::c03::to_rule).collect());
+                    let resp = rpc::call(&rt, &h, &keys, &Cred::Tenant(*t), r);
+                    let fired = simlibc::disarm_faults().iter().filter(|f| f.fired).count();
+                    *ex.per_rpc.entry(r.kind().to_string()).or_insert(0) += 1;
+                    if fired > 0 {
+                        *ex.probes.entry("rpc_with_storage_fault_fired".into()).or_insert(0) += 1;
+                        *ex.faults.entry(format!("storage_fault_during_{}", r.kind())).or_insert(0) += 1;
+                        if resp.code != 0 {
+                            *ex.probes.entry("rpc_failed_under_storage_fault".into()).or_insert(0) += 1;
+                        }
+                    }
+                    digest = crate::rng::mix(digest, resp.code as u64 ^ ((counts(&h)[0].0 as u64) << 8) ^ 0xF00D);
+                    if let Some(mut pb) = check_exact(&h, &p.cfg, i, &format!("step {} under storage faults", i), r.kind(), false) {
+                        pb.facts.insert("storage_fault".into(), if fired > 0 { "fired" } else { "armed_not_fired" }.into());
+                        pb.msg.push_str(&format!(" [answer code {} {:?}; faults {:?}]", resp.code, resp.message, faults));
                         ex.problems.push(pb);
                         break 'steps;
                     }
@@ -348,7 +388,16 @@ pub fn execute(plan: &Plan) -> Exec {
             let result = sim::run(RunConfig { seed: p.sched.seed, strategy: p.sched.strategy(), max_decisions: 200_000, yield_on_release: p.sched.yield_on_release, record_sites: false }, bodies);
             ex.trace_hash = result.trace_hash;
             ex.choices = result.choices.clone();
-            if result.deadlock.is_some() || result.step_cap_hit {
+            if let Some(reports) = &result.deadlock {
+                // no caller thread can make progress: the concurrent RPCs will never be answered, let alone counted
+                let kinds: Vec<String> = p.threads.iter().map(|t| t.iter().map(|r| r.kind()).collect::<Vec<_>>().join("+")).collect();
+                ex.problems.push(Problem {
+                    clause: "concurrent_rpcs_deadlocked".into(),
+                    msg: format!("the concurrent RPCs ({}) deadlocked: {:?}", kinds.join(" || "), reports.iter().map(|r| format!("{:?}", r)).collect::<Vec<_>>()).chars().take(1500).collect(),
+                    facts: BTreeMap::new(),
+                    step: p.steps.len(),
+                });
+            } else if result.step_cap_hit {
                 ex.aborted = true;
             } else {
                 for (tid, msg) in &result.panics {
@@ -375,12 +424,15 @@ pub fn execute(plan: &Plan) -> Exec {
         ex.digest = digest;
         drop(h);
         drop(rt);
+        if let Some(r) = root {
+            simlibc::unregister_root(r);
+        }
         remove_dir(&dir);
         ex
     });
     match r {
         Ok(e) => e,
-        Err(p) => Exec { problems: vec![Problem { clause: "harness_thread_panicked".into(), msg: p, facts: BTreeMap::new(), step: 0 }], steps: 0, aborted: false, probes: BTreeMap::new(), per_rpc: BTreeMap::new(), trace_hash: 0, choices: vec![], digest: 0 },
+        Err(p) => Exec { problems: vec![Problem { clause: "harness_thread_panicked".into(), msg: p, facts: BTreeMap::new(), step: 0 }], steps: 0, aborted: false, probes: BTreeMap::new(), per_rpc: BTreeMap::new(), faults: BTreeMap::new(), trace_hash: 0, choices: vec![], digest: 0 },
     }
 }
 
@@ -519,6 +571,9 @@ pub fn run_batch(seed: u64, start: u64, count: u64, tier: &str, budget_ms: u64, 
         }
         for (k, n) in &ex.probes {
             sum.probe(k, *n);
+        }
+        for (k, n) in &ex.faults {
+            sum.fault(k, *n);
         }
         if !plan.threads.is_empty() {
             sum.probe("concurrent_rows", 1);
